@@ -2,7 +2,7 @@
    counterpart; when one fails the model answers EInternal, which can never match the implementation's outcome, so a
    disagreement is reported).  Their soundness w.r.t. declarative statements is proved in BuildFacts.v.  No proofs here. *)
 From Coq Require Import List String NArith Arith Bool.
-From Spox Require Import Base IR Show Build Sem Plan.
+From Spox Require Import Base IR Show Build Sem Plan Named.
 Import ListNotations.
 Open Scope string_scope.
 
@@ -216,7 +216,7 @@ Definition validators (p : prog) (r : request) (m : model) : bool :=
   | Some inputs, Some outputs =>
     let p' := with_main p (Some (main_args inputs)) outputs in
     global_unique (mmain m) && node_names_unique (mmain m) && imports_unique m && floor_ok m &&
-    emitted_once p' (mmain m) && placed p' (mmain m) && check_plan p' 0 (mmain m) &&
+    emitted_once p' (mmain m) && placed p' (mmain m) && check_plan p' 0 (mmain m) && names_ok p' 0 (mmain m) &&
     functions_exact p' m && function_imports_cover p' m && function_plans p' m && inline_blocks_alpha p' m &&
     io_exact p' inputs outputs (r_drop r) (depends_on p' 0) (mmain m)
   | _, _ => false end.
